@@ -349,7 +349,14 @@ def gen_program(rng, length, variant):
             c[k] = parent
             prog.append(("new_c", k, u("v"), parent, rng.choice(["append", "m2o"])))
         elif kind == "move_c" and c and p:
-            k = rng.choice(sorted(c))
+            # a child is re-linked at most once per program: moving it away while neither
+            # its ``parent`` nor the old parent's collection is loaded leaves that
+            # collection stale by design (it would list the child twice after a move back)
+            relinked_k = {s[1] for s in prog if s[0] in ("move_c", "remove_c")}
+            pool = [k for k in sorted(c) if k not in relinked_k]
+            if not pool:
+                continue
+            k = rng.choice(pool)
             cand = [x for x in sorted(p) if x != c[k]]
             if variant == "orphan" and k.startswith("nk"):
                 # a *pending* child that leaves its parent under delete-orphan is expunged
@@ -360,7 +367,8 @@ def gen_program(rng, length, variant):
                 c[k] = rng.choice(cand)
                 prog.append(("move_c", k, c[k], rng.choice(["append", "m2o"])))
         elif kind == "remove_c":
-            cand = [k for k in sorted(c) if c[k] is not None]
+            relinked_k = {s[1] for s in prog if s[0] in ("move_c", "remove_c")}
+            cand = [k for k in sorted(c) if c[k] is not None and k not in relinked_k]
             if cand:
                 k = rng.choice(cand)
                 prog.append(("remove_c", k))
